@@ -22,6 +22,7 @@ package main
 import (
 	"bytes"
 	"context"
+	"crypto/sha256"
 	"fmt"
 	"time"
 
@@ -120,21 +121,40 @@ func verify(g lstore.Geometry, c *lstore.Media, desc string, lim lstore.CrashLim
 		if err := rs.PutOK(fresh.Digest, fresh.Content); err != nil {
 			break
 		}
-		for _, o := range served {
+		for _, n := range names {
+			o := obj(g, n)
 			data, ok, err := resolve(rs, o.Digest)
 			if !ok {
 				continue
 			}
 			if err != nil || !bytes.Equal(data, o.Content) {
-				failf("served-object-overwritten-after-restart", "%s: %s was served correctly after the restart, but after %d fresh upload(s) the store resolves it to %q (err=%v)", desc, o.Name, i+1, data, err)
+				wasServed := false
+				for _, so := range served {
+					if so.Name == n {
+						wasServed = true
+					}
+				}
+				if wasServed {
+					failf("served-object-overwritten-after-restart", "%s: %s was served correctly after the restart, but after %d fresh upload(s) the store resolves it to %q (err=%v)", desc, n, i+1, data, err)
+				}
+				failf("wrong-bytes-after-crash", "%s: after the restart and %d fresh upload(s) the store resolves %s to %q (err=%v); the uploaded content is %q", desc, i+1, n, data, err, o.Content)
 			}
+			st.verified++
 		}
 		if data, ok, err := resolve(rs, fresh.Digest); ok && (err != nil || !bytes.Equal(data, fresh.Content)) {
 			failf("wrong-bytes-after-crash", "%s: object uploaded after the restart reads back as %q (err=%v)", desc, data, err)
 		}
 	}
-	if nested && rs.PutWakeupReady() {
+	if rs.PutWakeupReady() {
+		// commit the post-restart uploads and look again: records of epochs that were never
+		// committed before the crash must not come back to life under a re-used epoch id
 		rs.Syncer.ProcessBlockPut(context.Background())
+		for _, n := range names {
+			o := obj(g, n)
+			if data, ok, err := resolve(rs, o.Digest); ok && (err != nil || !bytes.Equal(data, o.Content)) {
+				failf("wrong-bytes-after-crash", "%s: after the restart, fresh uploads and a commit the store resolves %s to %q (err=%v); the uploaded content is %q", desc, n, data, err, o.Content)
+			}
+		}
 	}
 	if nested {
 		for p := j0; p <= len(c.Journal); p++ {
@@ -202,14 +222,140 @@ func body(g lstore.Geometry, depth int, lim, nestedLim lstore.CrashLimits, neste
 				})
 			}
 		}
-		vsched.Obs("crashpoints=%d media=%d distinct=%d verified=%d nested=%d full=%d bounded=%d maxslots=%d", st.cs.CrashPoints, st.cs.Media, st.cs.Distinct, st.verified, st.nested, st.cs.FullProducts, st.cs.Bounded, st.cs.MaxSlots)
-		vsched.Count("crash_points", st.cs.CrashPoints)
-		vsched.Count("media_built", st.cs.Media)
-		vsched.Count("distinct_media_recovered", st.recovered)
-		vsched.Count("objects_verified_after_crash", st.verified)
-		vsched.Count("full_products", st.cs.FullProducts)
-		vsched.Count("deviation_bounded_products", st.cs.Bounded)
-		vsched.Count("second_crash_media", st.nested)
+		report(st)
+	}
+}
+
+// scriptBody: a fixed client script (uploads forcing rotations, refreshing reads); before every
+// client operation a free choice inserts {nothing, a ProcessBlockPut step, a ProcessBlockRelease step}. Crash points of the journal segment of step k are owned by the execution whose
+// later choices are all "nothing".
+func scriptBody(g lstore.Geometry, script []string, lim, nestedLim lstore.CrashLimits, nested bool) func() {
+	return func() {
+		med := lstore.NewMedia(g)
+		s := lstore.Open(g, med)
+		ctx := context.Background()
+		n := len(script)
+		choices := make([]int, n)
+		bounds := make([]int, n+1)
+		var hist []string
+		hists := make([][]string, n)
+		for step := 0; step < n; step++ {
+			k := vsched.ChooseFree("choice", 3)
+			choices[step] = k
+			bounds[step] = len(med.Journal)
+			if k == 1 && s.PutWakeupReady() {
+				s.Syncer.ProcessBlockPut(ctx)
+				hist = append(hist, "StepPut")
+			}
+			if k == 2 && s.ReleaseWakeupReady() {
+				s.Syncer.ProcessBlockRelease()
+				hist = append(hist, "StepRelease")
+			}
+			op := script[step]
+			hist = append(hist, op)
+			if op[:3] == "Get" {
+				_, err := s.Get(obj(g, op[3:]).Digest)
+				vsched.Obs("%s=%s", op, status.Code(err))
+			} else {
+				o := obj(g, op[3:])
+				err := s.PutOK(o.Digest, o.Content)
+				vsched.Obs("%s=%s", op, status.Code(err))
+			}
+			hists[step] = append([]string(nil), hist...)
+		}
+		bounds[n] = len(med.Journal)
+		st := &stats{}
+		for k := 0; k < n; k++ {
+			owned := true
+			for j := k + 1; j < n; j++ {
+				if choices[j] != 0 {
+					owned = false
+				}
+			}
+			if !owned {
+				continue
+			}
+			lo := bounds[k] + 1
+			if k == 0 {
+				lo = 0
+			}
+			for p := lo; p <= bounds[k+1]; p++ {
+				med.EnumerateCrashMedia(p, lim, &st.cs, func(c *lstore.Media, desc string) {
+					verify(g, c, fmt.Sprintf("history %v, %s", hists[k], desc), nestedLim, st, nested)
+				})
+			}
+		}
+		report(st)
+	}
+}
+
+func report(st *stats) {
+	vsched.Count("crash_points", st.cs.CrashPoints)
+	vsched.Count("media_built", st.cs.Media)
+	vsched.Count("distinct_media_recovered", st.recovered)
+	vsched.Count("objects_verified_after_crash", st.verified)
+	vsched.Count("full_products", st.cs.FullProducts)
+	vsched.Count("deviation_bounded_products", st.cs.Bounded)
+	vsched.Count("second_crash_media", st.nested)
+}
+
+var seenPrefix = map[[32]byte]bool{}
+
+// concBody: a client script with both syncer loops running as free daemon threads; every schedule
+// within the deviation bound produces an I/O journal; every crash point of every journal whose
+// prefix has not been seen before (by this worker) is enumerated.
+func concBody(g lstore.Geometry, script []string, lim lstore.CrashLimits) func() {
+	return func() {
+		med := lstore.NewMedia(g)
+		s := lstore.Open(g, med)
+		ctx, cancel := context.WithCancel(context.Background())
+		defer cancel()
+		s.StartSyncers(ctx, nil)
+		for _, op := range script {
+			if op[:3] == "Get" {
+				_, err := s.Get(obj(g, op[3:]).Digest)
+				vsched.Obs("%s=%s", op, status.Code(err))
+			} else {
+				o := obj(g, op[3:])
+				err := s.PutOK(o.Digest, o.Content)
+				vsched.Obs("%s=%s", op, status.Code(err))
+			}
+		}
+		vsched.WaitQuiescent()
+		st := &stats{}
+		h := sha256.New()
+		for p := 0; p <= len(med.Journal); p++ {
+			if p > 0 {
+				e := med.Journal[p-1]
+				h.Write([]byte{e.Dev})
+				switch e.Dev {
+				case 'D':
+					o := med.Data.Log[e.Idx]
+					h.Write([]byte{o.Kind, byte(o.Off), byte(o.Off >> 8)})
+					h.Write(o.Data)
+				case 'I':
+					o := med.Index.Log[e.Idx]
+					h.Write([]byte{o.Kind, byte(o.Off), byte(o.Off >> 8)})
+					h.Write(o.Data)
+				default:
+					o := med.Dir.Log[e.Idx]
+					h.Write([]byte(o.Kind + "|" + o.Name + "|" + o.To + "|"))
+					h.Write(o.Data)
+				}
+			}
+			var key [32]byte
+			copy(key[:], h.Sum(nil))
+			if seenPrefix[key] {
+				continue
+			}
+			med.EnumerateCrashMedia(p, lim, &st.cs, func(c *lstore.Media, desc string) {
+				verify(g, c, fmt.Sprintf("concurrent history %v, %s", script, desc), lim, st, false)
+			})
+			// only a prefix that was verified completely is skipped later (a violation aborts before this
+			// point, so re-executing a failing schedule enumerates and fails again)
+			seenPrefix[key] = true
+		}
+		report(st)
 	}
 }
 
@@ -233,6 +379,34 @@ func main() {
 	for _, hier := range []bool{false, true} {
 		g := geometry(hier)
 		scs = append(scs, mc.Scenario{Name: fmt.Sprintf("crash/hier=%v", hier), Space: fmt.Sprintf("all sequences of %d operations over {Put A3, B5, C8, F8, D4, Get A3, one ProcessBlockPut step, one ProcessBlockRelease step}; every crash point; media: full product up to %d, else deviation %d; second crash: %v; on %s", depth, lim.FullProductMax, lim.Deviation, r.Thorough(), g), Bound: 0, ShardDepth: 2, Body: body(g, depth, lim, nlim, r.Thorough()), Budget: time.Duration(ev.Pick(r, 200, 2400)) * time.Second, MaxSteps: 2000000000})
+	}
+	slim := lstore.CrashLimits{FullProductMax: ev.Pick(r, 1<<7, 1<<11), Deviation: ev.Pick(r, 1, 2), DirSubsets: r.Thorough()}
+	scripts := map[string][]string{
+		"rotation":         {"PutC8", "PutF8", "PutG8", "PutA3", "PutD4", "PutB5"},
+		"rotation-refresh": {"PutA3", "PutC8", "PutF8", "GetA3", "PutG8", "PutB5"},
+		"shared-sectors":   {"PutA3", "PutB5", "PutD4", "GetA3", "PutC8", "PutF8"},
+	}
+	for _, name := range []string{"rotation", "rotation-refresh", "shared-sectors"} {
+		for _, hier := range []bool{false, true} {
+			if hier && !r.Thorough() && name != "rotation" {
+				continue
+			}
+			g := geometry(hier)
+			if !r.Thorough() {
+				scripts[name] = scripts[name][:5]
+			}
+			scs = append(scs, mc.Scenario{Name: fmt.Sprintf("script/%s-hier=%v", name, hier), Space: fmt.Sprintf("client script %v with every insertion of {nothing, ProcessBlockPut step, ProcessBlockRelease step} before each operation (3^%d histories); every crash point; media: full product up to %d, else deviation %d; on %s", scripts[name], len(scripts[name]), slim.FullProductMax, slim.Deviation, g), Bound: 0, ShardDepth: 2, Body: scriptBody(g, scripts[name], slim, nlim, false), Budget: time.Duration(ev.Pick(r, 150, 1800)) * time.Second, MaxSteps: 2000000000})
+		}
+	}
+	clim := lstore.CrashLimits{FullProductMax: ev.Pick(r, 1<<6, 1<<9), Deviation: 1}
+	for _, name := range []string{"rotation", "shared-sectors"} {
+		g := geometry(false)
+		g.DataGates, g.DirGates = true, true
+		sc := scripts[name]
+		if !r.Thorough() {
+			sc = sc[:4]
+		}
+		scs = append(scs, mc.Scenario{Name: "conc/" + name, Space: fmt.Sprintf("client script %v with both syncer loops as free daemon threads: every schedule with <=%d deviations (preemptions and early timer expiries); every crash point of every distinct journal prefix; media: full product up to %d, else deviation 1; on %s", sc, ev.Pick(r, 2, 3), clim.FullProductMax, g), Bound: ev.Pick(r, 2, 3), EarlyTimers: true, Body: concBody(g, sc, clim), Budget: time.Duration(ev.Pick(r, 120, 1500)) * time.Second, MaxSteps: 2000000000})
 	}
 	mc.Run(r, scs)
 	r.Finish()
